@@ -174,6 +174,9 @@ class Repo:
             'constants': _prepass.fold_module_constants({m.name: m.tree for m in mods}),
             'named_tuples': _prepass.erase_named_tuples([m.tree for m in mods]),
         }
+        self.prepass['class_constants'] = _prepass.fold_class_constants([m.tree for m in mods])
+        from . import idioms as _idioms
+        self.prepass['library_idioms'] = _idioms.rewrite_package([m.tree for m in mods])
         # source normalisation (sa/normalize.py): needs every class for helper lookup
         self.normalised = {}
         if normalise:
